@@ -30,3 +30,15 @@ def register(m):
       'display_name = getattr(\n            expr, "name")', "N4")
     m("C09", "c09-pretty-printer-shows-name", S, 'symb_name = e.display_name if isinstance(e, Symbol) else getattr(e, "name")', 'symb_name = getattr(e, "name")', "N4")
     m("C09", "c09-fstring-next-name-ok", S, "    return name + str(next_id(name))", '    return f"{name}{next_id(name)}"', "SILENT")
+
+
+_o9 = register
+
+
+def register(m):
+    _o9(m)
+    m("C09", "c09-symbol-new-cached", S, "class Symbol(DimensionSymbol, SymSymbol):  # type: ignore[misc]  # pylint: disable=too-many-ancestors\n\n    def __new__(cls,",
+      "class Symbol(DimensionSymbol, SymSymbol):  # type: ignore[misc]  # pylint: disable=too-many-ancestors\n\n    @cacheit\n    def __new__(cls,", "N1",
+      extra=[(S, "from .id_generator import next_id", "from .id_generator import next_id\nfrom sympy import cacheit", 1)])
+    m("C09", "c09-eq-by-display-name", S, "    def _sympystr(self, p: Printer) -> str:\n        return str(p.doprint(self.display_name))",
+      "    def _sympystr(self, p: Printer) -> str:\n        return str(p.doprint(self.display_name))\n\n    def __eq__(self, other: Any) -> bool:\n        return isinstance(other, DimensionSymbol) and self.display_name == other.display_name\n\n    def __hash__(self) -> int:\n        return hash(self.display_name)", "N1")
